@@ -281,7 +281,8 @@ def run_impl(table, toks):
     class T(PrattParser):
         PREFIX_OPS = {names[t]: p for t, p in table["prefix"].items()}
         POSTFIX_OPS = {names[t]: p for t, p in table["postfix"].items()}
-        INFIX_OPS = {names[n]: (p, a == "R") for n, (p, a) in table["infix"].items()}
+        # associativity through the class constants a user would write (LEFT_ASSOC / RIGHT_ASSOC), not through bare booleans
+        INFIX_OPS = {names[n]: (p, PrattParser.RIGHT_ASSOC if a == "R" else PrattParser.LEFT_ASSOC) for n, (p, a) in table["infix"].items()}
 
         def parse_primary(self, pair):
             return "x"
